@@ -258,6 +258,13 @@ def skeletons(tier):
                                      (S.A("i3"), S.A("p3"), S.A("t3"), S.I("id3", 0, 2047))]
         return dict(structs=st, enums=[], impls=impls, services=[], devices=[])
 
+    def k_bind_enum(S):  # a binding may name an enum: 'binding to an unknown struct' means struct, not any declared type
+        st = [(S.A("s1"), [(S.A("f1"), U8)])]
+        en = [(S.A("e1"), [(S.A("n1"), 0), (S.A("n2"), 3)])]
+        impls = default_impls(st) + [(S.A("i1"), "can", S.A("t1"), S.I("id1", 0, 2047)),
+                                     (S.A("i2"), S.A("p2"), S.A("t2"), None)]
+        return dict(structs=st, enums=en, impls=impls, services=[], devices=[])
+
     def k_bind_noid(S):
         st = [(S.A("s1"), [(S.A("f1"), U8)]), (S.A("s2"), [(S.A("f2"), U8)]), (S.A("s3"), [(S.A("f3"), U8)])]
         impls = default_impls(st) + [(S.A("i1"), "can", st[0][0], S.I("id1", 0, 2047)),
@@ -307,7 +314,7 @@ def skeletons(tier):
 
     sk = {"bodyless": k_bodyless, "size_compound": k_size_compound, "types": k_types, "fields": k_fields, "empty_struct": k_empty_struct, "enum": k_enum, "impls": k_impls,
           "devices": k_devices, "devices_nosvc": k_devices_nosvc, "bind": k_bind, "bind_noid": k_bind_noid,
-          "size": k_size, "bind_bus": k_bind_bus}
+          "size": k_size, "bind_bus": k_bind_bus, "bind_enum": k_bind_enum}
     if tier == "thorough":
         sk["combined"] = k_combined
         sk["three_structs"] = k_three_structs
@@ -418,10 +425,10 @@ def run_c09(tier: str) -> int:
     cases = []
     for name in sk:
         for plugin in ("general", "dbc", "can_c"):
-            if name in ("bind", "bind_noid", "bind_bus") and plugin == "general":
+            if name in ("bind", "bind_noid", "bind_bus", "bind_enum") and plugin == "general":
                 continue  # bindings to unknown structs are not constrained by the general rules: still run
             for variant in ((0, 1) if tier == "quick" else (0, 1, 2)):
-                if plugin != "general" and name not in ("bind", "bind_noid", "bind_bus", "bodyless", "size", "size_compound", "impls", "types", "combined") and variant:
+                if plugin != "general" and name not in ("bind", "bind_noid", "bind_bus", "bind_enum", "bodyless", "size", "size_compound", "impls", "types", "combined") and variant:
                     continue
                 cases.append((name, plugin, variant, tier))
     for name in ("bind", "bind_noid"):
